@@ -21,8 +21,9 @@ Part C  (E2) random users: `numpy.random.random_sample` is a scripted seam; ever
         at 0.7035 r, those the ORACLE accepts for the cell at hand first; a run that
         exceeds the horizon is reported as a livelock.  Bounds (measured cost:
         17k..98k executions per configuration at D=4): quick D<=2 with two users on
-        594 configurations, D<=3 on 108, D<=4 on 6; thorough D<=2 and D<=3 on all
-        1782, D<=4 on 216, D<=5 on 6, D<=6 on 1 -- the evidence lists them.
+        a covering set of 210 configurations (+36 with two users), D<=3 on 36, D<=4
+        on 2; thorough D<=2 and D<=3 on all 1782, D<=4 on 216, D<=5 on 6 -- the
+        evidence lists them.
 Part D  (E1) clusters: sizes x cell types x radii x positions x rotations:
         congruent cells, centroid, nearest-neighbour distance, shared edges, no
         overlap, rotation covariance, wrap-around lattice (19 cells), user-to-cell
@@ -524,8 +525,7 @@ def random_jobs(tier):
         plan = [(RANDOM_KINDS, full, ROT, MIN_DIST, 2, 2),
                 (RANDOM_KINDS, full, ROT, MIN_DIST, 1, 3),
                 (RANDOM_KINDS, diag, [0, 45, 17, 123.4], MIN_DIST, 1, 4),
-                (RANDOM_KINDS, diag[1:2], [45], [0.3], 1, 5),
-                (RANDOM_KINDS[1:2], diag[1:2], [45], [0.3], 1, 6)]
+                (RANDOM_KINDS, diag[1:2], [45], [0.3], 1, 5)]
     else:
         # covering: every kind x rotation x min_dist with the (pos, radius) pair cycling; deeper on a few
         for kind, sector in RANDOM_KINDS:
@@ -1162,15 +1162,18 @@ def run_history(chk, kind, hist):
                 fresh.pos = centre
             else:
                 fresh = build_shape(kind, centre, r, rot)
-            got = observe(kind, obj, centre, r, rot)
-            want = observe(kind, fresh, centre, r, rot)
             chk.count("eval_history_states")
             sig = ("history", fam, last)
             tol = TOL * max(r, r0)
-            if not same_point_set(got[0], got[4], tol):
-                chk.fail(sig + ("vertices_differ_from_model",), case, observed=got[0], expected=got[4],
+            # vertices first: a shape that did not follow its setters makes the other queries meaningless
+            v_now = np.array(obj.vertices, dtype=complex)
+            v_model, _ = model_vertices(kind, centre, r, rot)
+            if not same_point_set(v_now, v_model, tol):
+                chk.fail(sig + ("vertices_differ_from_model",), case, observed=v_now, expected=v_model,
                          msg="after the events the own vertices are not the shape given by the current pos/radius/rotation")
                 return
+            got = observe(kind, obj, centre, r, rot)
+            want = observe(kind, fresh, centre, r, rot)
             if got[0].shape != want[0].shape or np.max(np.abs(got[0] - want[0])) > tol:
                 chk.fail(sig + ("vertices_differ_from_fresh_object",), case, observed=got[0], expected=want[0])
                 return
